@@ -17,7 +17,14 @@ RULE = ("case = (worker loop in {sync,gthread,async}, keepalive/sendfile/threads
         "non-trivial = response with non-empty or explicitly framed body or a failure point; distinct = sha1(case)")
 
 STATUSES = ["200 OK", "201 Created", "204 No Content", "301 Moved Permanently", "304 Not Modified",
-            "404 Not Found", "500 Internal Server Error", "299 " + "Long reason " * 20]
+            "404 Not Found", "500 Internal Server Error", "299 " + "Long reason " * 20,
+            # every other class of final status is delimited like a 200: only 1xx/204/304 (and HEAD)
+            # end at the blank line by the message format itself (RFC 9112 6.3)
+            "205 Reset Content", "202 Accepted", "206 Partial Content", "203 Non-Authoritative Information",
+            "300 Multiple Choices", "302 Found", "303 See Other", "305 Use Proxy", "307 Temporary Redirect",
+            "400 Bad Request", "401 Unauthorized", "408 Request Timeout", "412 Precondition Failed",
+            "416 Range Not Satisfiable", "426 Upgrade Required", "501 Not Implemented",
+            "503 Service Unavailable", "599 Whatever"]
 CONN_VARIANTS = [None, None, None, ["close"], ["keep-alive"], ["Keep-Alive"], ["Close"], ["close, TE"],
                  ["TE, close"], ["keep-alive", "close"], ["TE"], [" close "]]
 
@@ -77,7 +84,7 @@ def asked_close(r):
 
 def gen_program(rng, req):
     method = wire_method(req)
-    status = rng.choice(STATUSES)
+    status = rng.choice(STATUSES[:8]) if rng.random() < 0.6 else rng.choice(STATUSES[8:])
     code = int(status.split()[0])
     nobody = method == "HEAD" or code in (204, 304)
     spec = {"status": status, "headers": [], "read_input": rng.choice(["all", "all", "none", 1])}
